@@ -21,7 +21,7 @@ Section RsaProofs.
     rvd kb a d sig = true ->
     digest_fits a d = true /\ exists k, rsakey kb = Some k /\ pkcs1v15 k a d sig = true.
   Proof.
-    unfold rsa_verify_digest, pkix_rsa_key. rewrite rsa_steps_known_true.
+    unfold rsa_verify_digest, rsa_verify_digest_meaning, pkix_rsa_key. rewrite rsa_steps_known_true.
     destruct (digest_fits a d); [|discriminate]. simpl.
     destruct (pem_first_block kb) as [der|]; [|discriminate].
     destruct (parse_pkix der) as [[k|]|]; try discriminate. intro H. split; [reflexivity|]. exists k. auto.
@@ -32,7 +32,7 @@ Section RsaProofs.
     digest_fits a d = true /\ exists k, rsakey kb = Some k /\ pkcs1v15 k a d sig = true.
   Proof.
     split; [apply rsa_verify_digest_inv|]. intros (F & k & R & V).
-    unfold rsa_verify_digest, pkix_rsa_key in *. rewrite rsa_steps_known_true, F. simpl.
+    unfold rsa_verify_digest, rsa_verify_digest_meaning, pkix_rsa_key in *. rewrite rsa_steps_known_true, F. simpl.
     destruct (pem_first_block kb) as [der|]; [|discriminate].
     destruct (parse_pkix der) as [[k'|]|]; try discriminate. inversion R; subst. exact V.
   Qed.
